@@ -391,4 +391,23 @@ theorem parse_frameOK6 (c : Model.Cfg) (p : Bytes) (r : ParseRes) (hp : parse c 
   rw [e2] at h2
   exact ⟨by omega, by omega, by omega⟩
 
+open PV.Lemmas.ComposeIcmp6 in
+/-- the Ethernet source Parse records for a frame of `icmp6Gate` is `p[6:12]` (what `pkt.Ether().Src()` reads) -/
+theorem srcMAC_of_gate (c : Model.Cfg) (p : Bytes) (r : ParseRes) (hp : parse c p = .ok r) (hg : icmp6Gate p = true) :
+    r.frame.srcMAC = (p.take 12).drop 6 := by
+  obtain ⟨_, _, _, hsrc⟩ := parse_proj c p r hp
+  have h6 : ip6OK p = true := by unfold icmp6Gate at hg; simp at hg; exact hg.1.2
+  have h6' := of_decide_eq_true h6
+  have hok : etherOK p = true := by
+    unfold etherOK hdrLen
+    apply decide_eq_true
+    rw [h6'.2.1]
+    refine ⟨h6'.1, ?_⟩
+    simp; omega
+  rw [hsrc]
+  unfold frameEvOf
+  rw [if_pos hok]
+  simp only [field]
+  rw [List.drop_take]
+
 end PV.Lemmas.Handlers
